@@ -1178,7 +1178,7 @@ class SourceCatalog:
         if self._background is None:
             return self._null_objects
         return self._prepare_cutouts(self._background_cutouts, units=False,
-                                     masked=True)
+                                     masked=True, dtype=float)
 
     @lazyproperty
     def _all_masked(self):
